@@ -172,6 +172,23 @@ Qed.
 Lemma lift_free_fold_simple : forall e, lift_free e = true -> simple (fold_neg e) = true.
 Proof. apply lift_free_fold_simple_all. Qed.
 
+Lemma simple_fold_all :
+  (forall e, simple e = true -> simple (fold_neg e) = true) /\
+  (forall es, simple_list es = true -> simple_list (fold_neg_list es) = true) /\
+  (forall ct l, match ct with CLast _ r => simple r | CMore _ _ _ => false end = true ->
+                simple l = true -> simple (ECmp l (fold_neg_ctail ct)) = true) /\
+  (forall (g : gens), True).
+Proof.
+  apply expr_mutind; simpl; intros; auto; try discriminate;
+    repeat match goal with H : _ && _ = true |- _ => apply andb_true_iff in H as [? ?] end;
+    try solve [fin].
+  - destruct op; simpl; auto. destruct e; simpl; auto. destruct (neg_const c); simpl; auto.
+  - destruct rest; [|discriminate]. apply andb_true_iff in H1 as [? ?]. apply H0; auto.
+Qed.
+
+Lemma simple_fold : forall e, simple e = true -> simple (fold_neg e) = true.
+Proof. apply simple_fold_all. Qed.
+
 (* ------------------------------------------------------------------ the expression lemma *)
 Definition P_expr (e : expr) : Prop :=
   src_expr e = true -> EX (build_expr e) /\ BR (build_branch e).
@@ -310,7 +327,7 @@ Proof.
     intros l' bb extra t f Hl. simpl. destruct (lift_free m) eqn:LF; [|apply pres_fail].
     eapply pres_bind with (Q := fun _ => True); [destruct extra; [apply pres_ret; exact I | apply pres_new_bb]|intros ? _].
     pb by (apply Em). pb by (apply pres_close_branch; simpl; fin).
-    apply Hc. apply lift_free_fold_simple. auto.
+    apply Hc. apply simple_fold. apply lift_free_fold_simple. auto.
   - (* GNil *) intros _ bb. simpl. apply pres_ret. auto.
   - (* GCons *) intros t IHt it IHi ifs IHc r IHr S. simpl in S. split_src.
     destruct (IHt H) as [Et _]. destruct (IHi H2) as [Ei _]. pose proof (IHc H1) as Ec. pose proof (IHr H0) as Er.
